@@ -92,9 +92,9 @@ def prefix_violation(res, H):
 
 
 def run(ctx):
-    H = 3 if ctx.quick else 5
+    H = 3 if ctx.quick else 4
     rng = ctx.rng('programs')
-    progs = [past_program(rng) for _ in range(400 if ctx.quick else 3000)]
+    progs = [past_program(rng) for _ in range(400 if ctx.quick else 1500)]
     inputs = [[lang.prog_txt(p)] for p in progs]
     res = meta.answer_sets(ctx, inputs, H)
     cex, nontriv = [], set()
